@@ -147,6 +147,12 @@ func (e *Engine) verifyFunctionIn(fc *FuncContract, inContext map[string]bool) *
 	if fc.Recover {
 		c.structural(hasDeferredRecover(fn), "structure", fc.Key+"/structure:deferred-recover", "", "goroutine handling network input must have a deferred recover()", []string{"C18"})
 	}
+	if fc.LoopFree {
+		// "every call returns": the function's termination argument is that it has no loop, so it returns
+		// once the calls it makes return and the locks it takes are granted (lock order: separate obligations)
+		n := len(c.eng.loopInfo(fn).ordinal)
+		c.structural(n == 0, "termination", fc.Key+"/termination:loop-free", "", fmt.Sprintf("every call returns: the body must be loop-free (it has %d loop(s)); a retry loop needs a termination argument", n), []string{"C13"})
+	}
 	res.Obls = c.obls
 	res.Undecided = c.undecided
 	res.Paths = c.paths
